@@ -23,6 +23,7 @@ import (
 	"strconv"
 	"strings"
 	"sync"
+	"sync/atomic"
 	"time"
 )
 
@@ -58,6 +59,7 @@ type Ctx struct {
 	Deadline time.Time
 
 	ordinal  int64
+	busy     int32 // 1 while a case of this worker is executing
 	progress *os.File
 	res      Result
 	distinct map[[8]byte]struct{}
@@ -69,10 +71,13 @@ type Ctx struct {
 
 func (c *Ctx) Quick() bool { return c.Tier != "thorough" }
 
+// HangLimit is how long one case may run before it is declared a hang.
+var HangLimit = 90 * time.Second
+
 // Next advances the enumeration by one case and reports whether this worker executes it.
 func (c *Ctx) Next() bool {
-	o := c.ordinal
-	c.ordinal++
+	o := atomic.AddInt64(&c.ordinal, 1) - 1
+	atomic.StoreInt32(&c.busy, 0)
 	if c.Shards > 1 && int(o%int64(c.Shards)) != c.Shard {
 		return false
 	}
@@ -84,11 +89,12 @@ func (c *Ctx) Next() bool {
 		binary.LittleEndian.PutUint64(b[:], uint64(o))
 		c.progress.WriteAt(b[:], 0)
 	}
+	atomic.StoreInt32(&c.busy, 1)
 	return true
 }
 
 // Ordinal returns the ordinal of the case most recently returned by Next.
-func (c *Ctx) Ordinal() int64 { return c.ordinal - 1 }
+func (c *Ctx) Ordinal() int64 { return atomic.LoadInt64(&c.ordinal) - 1 }
 
 // Describe stores a human-readable description of the running case next to the ordinal, so a
 // fatal crash can be attributed without re-enumeration. Cheap enough to call per case.
@@ -195,13 +201,16 @@ type Check struct {
 	Run       func(c *Ctx)
 	InProcess bool // run in a single process (the check manages its own parallelism)
 	Replay    func(witness json.RawMessage) (string, bool)
+	// Prepare runs once in the parent before the workers start; it may write files into dir,
+	// which the workers find under PrepDir().
+	Prepare func(tier string, dir string) error
 	// QuickCap / ThoroughCap are internal time caps.
 	QuickCap, ThoroughCap time.Duration
 }
 
 var registry = map[string]*Check{}
 
-func Register(c *Check) { registry[c.ID] = c }
+func Register(c *Check)       { registry[c.ID] = c }
 func Lookup(id string) *Check { return registry[id] }
 func IDs() []string {
 	var s []string
@@ -237,7 +246,30 @@ func RunWorker(id, tier string, seed int64, shard, shards int, from int64, deadl
 			defer f.Close()
 		}
 	}
+	// watchdog: a case that makes no progress for HangLimit is a hang (5-6 orders of magnitude
+	// above a normal run); the parent attributes it to the case in the progress file
+	done := make(chan struct{})
+	go func() {
+		last, since := int64(-1), time.Now()
+		for {
+			select {
+			case <-done:
+				return
+			case <-time.After(2 * time.Second):
+			}
+			cur := atomic.LoadInt64(&c.ordinal)
+			if cur != last {
+				last, since = cur, time.Now()
+				continue
+			}
+			if time.Since(since) > HangLimit && atomic.LoadInt32(&c.busy) == 1 {
+				fmt.Fprintf(os.Stderr, "fatal error: HANG no progress for %v in case ordinal %d\n", HangLimit, cur-1)
+				os.Exit(3)
+			}
+		}
+	}()
 	ch.Run(c)
+	close(done)
 	c.res.Counters["ordinals"] = c.ordinal
 	for k := range c.distinct {
 		c.res.Distinct = append(c.res.Distinct, hex.EncodeToString(k[:]))
@@ -277,6 +309,9 @@ func loadKnown(path string) []Known {
 	}
 	return out
 }
+
+// PrepDir is where the parent's Prepare step left its files.
+func PrepDir() string { return os.Getenv("VERIF_SCRATCH") }
 
 // Scratch returns a fresh scratch directory (tmpfs when available), removed by the caller.
 func Scratch(prefix string) string {
@@ -352,6 +387,13 @@ func Main(id, tier string, seed int64, verifDir string) int {
 		}
 	}
 
+	if ch.Prepare != nil {
+		os.Setenv("VERIF_SCRATCH", scratch)
+		if err := ch.Prepare(tier, scratch); err != nil {
+			fmt.Println("HARNESS-FAULT: prepare:", err)
+			return 2
+		}
+	}
 	if ch.InProcess {
 		c := newCtx(ch, tier, seed, 0, 1, 0, deadline)
 		ch.Run(c)
@@ -417,7 +459,7 @@ func Main(id, tier string, seed int64, verifDir string) int {
 					st := errb.String()
 					mu.Lock()
 					crashes = append(crashes, Violation{Property: id, Oracle: "worker-died", Sig: "fatal:" + fatalSig(st),
-						Detail: fmt.Sprintf("worker process died (%v) while running case ordinal %d: %s", err, ord, firstLine(st)),
+						Detail:  fmt.Sprintf("worker process died (%v) while running case ordinal %d: %s", err, ord, firstLine(st)),
 						Witness: map[string]interface{}{"ordinal": ord, "case": desc, "stderr_head": head(st, 1500)}, Ordinal: ord})
 					merged.Counters["worker_restarts"]++
 					mu.Unlock()
